@@ -118,7 +118,58 @@ def resolution_and_retarget_cases(ctx):
         a = [r.randint(0, 50) for _ in range(r.randint(1, 4))]
         b = [r.randint(100, 150) for _ in range(r.randint(1, 4))]
         ref = iso.PRef(iso.PSequence(a))
-        where = r.choice(["direct", "seq-item", "pdict-value", "operand", "stutter-input", "ref-to-ref", "ref-to-ref-to-ref"])
+        where = r.choice(["direct", "seq-item", "pdict-value", "operand", "stutter-input", "ref-to-ref", "ref-to-ref-to-ref",
+                          "scheduled", "scheduled"])
+        if where == "scheduled":
+            # the reference sits in the events of a track, scheduled or updated immediately, quantized or delayed: the
+            # track plays the caller's pattern objects, so re-targeting is heard from the next event on
+            from isobar.io.output import OutputDevice
+
+            class _Notes(OutputDevice):
+                def __init__(self):
+                    super().__init__()
+                    self.notes = []
+
+                def note_on(self, note=60, velocity=64, channel=0):
+                    self.notes.append(note)
+
+                def note_off(self, note=60, channel=0):
+                    pass
+            dev = _Notes()
+            tpb = r.choice([4, 24])
+            tl = iso.Timeline(tempo=120, output_device=dev, clock_source=iso.DummyClock(ticks_per_beat=tpb))
+            qz, dl = r.choice([(0, 0), (1, 0), (0, 0.5), (1, 0.25), (2, 1)])
+            how = r.choice(["schedule", "update"])
+            if how == "schedule":
+                tl.schedule({"note": ref, "duration": 1}, quantize=qz, delay=dl)
+            else:
+                tr = tl.schedule({"note": 1, "duration": 1, "amplitude": 0})
+                for _ in range(r.randint(0, 2 * tpb)):
+                    tl.tick()
+                tr.update({"note": ref, "duration": 1}, quantize=qz, delay=dl)
+            k = r.randint(1, 4)
+            guard = 0
+            while len(dev.notes) < k and guard < 40 * tpb:
+                tl.tick()
+                guard += 1
+            got_a = list(dev.notes)
+            ref.set_pattern(iso.PSequence(b))
+            m = r.randint(1, 4)
+            guard = 0
+            while len(dev.notes) < k + m and guard < 40 * tpb:
+                tl.tick()
+                guard += 1
+            got_b = dev.notes[k:]
+            exp_a = [a[j % len(a)] for j in range(k)]
+            exp_b = [b[j % len(b)] for j in range(len(got_b))]
+            ctx.case(("retarget", where, how, qz, dl, tuple(a), tuple(b), k), nontrivial=True, validated=False)
+            ctx.count("retarget:" + where, "retarget:scheduled:%s:q=%s:d=%s" % (how, qz, dl))
+            if got_a != exp_a or got_b != exp_b or len(got_b) != m:
+                ctx.violation("C12:pref-retarget:" + where,
+                              "PRef in the events of a track (%s, quantize=%s, delay=%s): before re-targeting %s (expected %s), after "
+                              "set_pattern %s (expected %s)" % (how, qz, dl, got_a, exp_a, got_b, exp_b),
+                              {"suite": "retarget", "where": where, "how": how, "quantize": qz, "delay": dl, "a": a, "b": b, "steps_before": k})
+            continue
         if where == "ref-to-ref":
             # a reference to a reference: re-targeting the INNER one is seen through the outer one
             p = iso.PRef(ref)
@@ -156,8 +207,75 @@ def resolution_and_retarget_cases(ctx):
                           {"suite": "retarget", "where": where, "a": a, "b": b, "steps_before": k})
 
 
+# ---- poll(): printing values must not consume values ------------------------------------------------------------------
+# "consumed one value per use ... never read twice": also when the pattern is polled (poll() prints each value; printing
+# must not resolve — and thereby advance — a value that is itself a pattern).  Forked child: poll() patches the class.
+
+def _poll_child(seed, n_cases):
+    import contextlib
+    import io
+    import random
+    from .. import common as _c
+    _c.ensure_repo_on_path()
+    import isobar as iso
+    r = random.Random(seed)
+    bad = []
+
+    def strict(x):
+        if isinstance(x, iso.Pattern):
+            return "<unresolved %s>" % type(x).__name__
+        if isinstance(x, (tuple, list)):
+            return [strict(y) for y in x]
+        if isinstance(x, dict):
+            return {k: strict(v) for k, v in x.items()}
+        return x
+
+    def make(kind, a, b):
+        if kind == "const-tuple":
+            return iso.PConstant((60, iso.PSequence(list(a))))
+        if kind == "seq-of-patterns":
+            return iso.PSequence([iso.PSequence(list(a)), iso.PSequence(list(b))])
+        if kind == "pdict-chord":
+            return iso.PDict({"note": (iso.PSequence(list(a)), 64), "amp": iso.PSequence(list(b))})
+        if kind == "stutter-of-const":
+            return iso.PStutter(iso.PConstant(iso.PSequence(list(a))), 2)
+        return iso.PSequence([(iso.PSequence(list(a)), iso.PSequence(list(b)))])
+
+    # (no PDict here: PDict.poll() itself raises KeyError on the unchanged tree — PDict.__getattr__ answers the missing
+    #  `_poll` attribute with KeyError, an observation outside the 20 properties, DESIGN 8.3)
+    kinds = ["const-tuple", "seq-of-patterns", "stutter-of-const", "seq-of-tuple"]
+    for i in range(n_cases):
+        kind = r.choice(kinds)
+        a = [r.randint(0, 50) for _ in range(r.randint(2, 5))]
+        b = [r.randint(100, 150) for _ in range(r.randint(2, 5))]
+        n = r.randint(3, 9)
+        plain = [strict(iso.Pattern.value(next(make(kind, a, b)))) for _ in range(1)]      # warm-up of the shape
+        p0 = make(kind, a, b)
+        exp = [strict(iso.Pattern.value(next(p0))) for _ in range(n)]
+        p1 = make(kind, a, b)
+        with contextlib.redirect_stdout(io.StringIO()):
+            p1.poll()
+            got = [strict(iso.Pattern.value(next(p1))) for _ in range(n)]
+        if got != exp:
+            bad.append({"kind": kind, "a": a, "b": b, "n": n, "polled": got, "unpolled": exp})
+    return n_cases, bad
+
+
+def poll_cases(ctx):
+    n, bad = pat_props.run_forked(_poll_child, ctx.rng.getrandbits(48), ctx.scale(120, 4000))
+    ctx.case(("poll", n), nontrivial=True, validated=False, sample={"part": "poll", "cases": n, "failures": len(bad)})
+    ctx.count("poll")
+    ctx.extra["poll_cases"] = n
+    if bad:
+        b = bad[0]
+        ctx.violation("C12:poll-consumes:" + b["kind"],
+                      "a polled %s yields %s, the same pattern not polled yields %s" % (b["kind"], b["polled"], b["unpolled"]),
+                      {"suite": "c12-poll", "case": b, "failures": len(bad), "first_failing_clause": "one value per use, never read twice"})
+
+
 def run(ctx):
     resolution_and_retarget_cases(ctx)
+    poll_cases(ctx)
     reg_pairs = ast_registry()
     modelled = {}
     for c in sorted(REG):
